@@ -56,8 +56,12 @@ def predicted_execs(world, ops):
             cmd = op.get('command', 'all')
             if op['op'] == 'cli':
                 target = [a[5:] for a in op['argv'] if a.startswith('PATH:')][0]
-                rest = [a for a in op['argv'] if not a.startswith('PATH:') and not a.startswith('-')]
+                argv = op['argv']
+                rest = [a for a in argv if not a.startswith('PATH:') and not a.startswith('-')]
                 cmd = rest[0] if rest else 'all'
+                for flag in ('-c', '--command'):
+                    if flag in argv:
+                        cmd = argv[argv.index(flag) + 1]
             if cmd in ('list', 'dump'):
                 continue
             for rel, lst in sorted(by_mod.items()):
